@@ -5,6 +5,7 @@ import (
 	"go/ast"
 	"go/token"
 	"go/types"
+	"sort"
 	"strings"
 
 	"golang.org/x/tools/go/packages"
@@ -482,4 +483,98 @@ func isFlagOp(cc *ssa.CallCommon, op, field string) bool {
 	}
 	_, is := fieldAddrOf(cc.Args[0], field)
 	return is
+}
+
+// ssaPkgFuncs returns every function with a body that belongs to sp: package
+// functions, methods of its named types, init, and all function literals.
+var ssaPkgFuncsCache = map[*ssa.Package][]*ssa.Function{}
+
+func ssaPkgFuncs(sp *ssa.Package) []*ssa.Function {
+	if fs, ok := ssaPkgFuncsCache[sp]; ok {
+		return fs
+	}
+	var out []*ssa.Function
+	seen := map[*ssa.Function]bool{}
+	add := func(f *ssa.Function) {
+		if f == nil || seen[f] || len(f.Blocks) == 0 {
+			return
+		}
+		sx.WithAnon(f, func(g *ssa.Function) {
+			if !seen[g] {
+				seen[g] = true
+				out = append(out, g)
+			}
+		})
+	}
+	var names []string
+	for n := range sp.Members {
+		names = append(names, n)
+	}
+	sort.Strings(names)
+	for _, n := range names {
+		switch m := sp.Members[n].(type) {
+		case *ssa.Function:
+			add(m)
+		case *ssa.Type:
+			for _, t := range []types.Type{m.Type(), types.NewPointer(m.Type())} {
+				ms := sp.Prog.MethodSets.MethodSet(t)
+				for i := 0; i < ms.Len(); i++ {
+					if f := sp.Prog.MethodValue(ms.At(i)); f != nil && f.Pkg == sp {
+						add(f)
+					}
+				}
+			}
+		}
+	}
+	ssaPkgFuncsCache[sp] = out
+	return out
+}
+
+// globalErrNonNil decides that a package-level error variable can never be
+// nil: it is stored exactly once, by the package initialiser, with the result
+// of a constructor that never returns nil (errors.New, fmt.Errorf,
+// status.Error/Errorf with a constant code other than OK), and its address is
+// used for nothing but loads.
+func globalErrNonNil(g *ssa.Global) bool {
+	if g == nil || g.Pkg == nil {
+		return false
+	}
+	stores, good := 0, true
+	for _, f := range ssaPkgFuncs(g.Pkg) {
+		sx.AllInstrs(f, func(_ sx.Node, in ssa.Instruction) {
+			for _, op := range in.Operands(nil) {
+				if op == nil || *op != ssa.Value(g) {
+					continue
+				}
+				switch x := in.(type) {
+				case *ssa.UnOp:
+					// load
+				case *ssa.Store:
+					if x.Addr != ssa.Value(g) {
+						good = false
+						return
+					}
+					stores++
+					c, ok := x.Val.(*ssa.Call)
+					if f.Name() != "init" || f.Parent() != nil || !ok {
+						good = false
+						return
+					}
+					switch {
+					case calleeIs(&c.Call, "fmt.Errorf", "errors.New"):
+					case calleeIs(&c.Call, "google.golang.org/grpc/status.Error", "google.golang.org/grpc/status.Errorf"):
+						k, isC := c.Call.Args[0].(*ssa.Const)
+						if !isC || k.Value == nil || constant.Sign(k.Value) == 0 {
+							good = false
+						}
+					default:
+						good = false
+					}
+				default:
+					good = false
+				}
+			}
+		})
+	}
+	return good && stores == 1
 }
